@@ -1,19 +1,20 @@
 #!/bin/bash
 # re-run the whole mutant catalogue against the current /repo HEAD; writes mutants/RESULTS.md
 # usage: tools/run_mutants.sh [pattern]      (each mutant: scratch worktree under /tmp, quick tier of its property)
-cd /verif
+cd "$(dirname "$0")/.."; here=$PWD
 out=mutants/RESULTS.md
 tmp=$(mktemp)
 echo "# Mutant catalogue results ($(date -u +%F), /repo $(git -C /repo rev-parse --short HEAD), quick tier, VERIF_SEED=${VERIF_SEED:-1})" > $tmp
 echo >> $tmp
 echo "| mutant | property | result | first keys |" >> $tmp
 echo "|---|---|---|---|" >> $tmp
+[ -d .deps ] || /venv/bin/pip install --no-index --find-links /opt/veriftools/wheels --target .deps mpmath jsonschema >/dev/null 2>&1
 for f in mutants/${1:-c}*.diff; do
   name=$(basename $f .diff)
   id=$(echo $name | cut -c1-3 | tr c C)
   dir=/tmp/scratch/mutrun-$$-$name
   git -C /repo worktree add --detach $dir HEAD >/dev/null 2>&1 || { echo "| $name | $id | worktree failed | |" >> $tmp; continue; }
-  if ! git -C $dir apply $f 2>/dev/null; then
+  if ! git -C $dir apply $here/$f 2>/dev/null; then
     echo "| $name | $id | does not apply to HEAD (written against an earlier tree) | |" >> $tmp
   else
     log=$(VERIF_REPO=$dir /venv/bin/python check.py $id --tier quick 2>&1)
@@ -23,7 +24,7 @@ for f in mutants/${1:-c}*.diff; do
     echo "| $name | $id | $res | $keys |" >> $tmp
   fi
   git -C /repo worktree remove --force $dir >/dev/null 2>&1
-  rm -rf /verif/.work/alt-$(basename $dir)
+  rm -rf $here/.work/alt-$(basename $dir)
 done
 mv $tmp $out
 echo done
